@@ -408,11 +408,11 @@ def prefix_ops(rng, n, fock=False):
 def compare_to_reference(ctx, sf, spec, backend, hbar, rp, sig, what):
     """run spec on a back end and compare all first and second moments with the independent reference"""
     ref = dec02.reference(spec, hbar)
-    want = ref.alpha_N_M()
+    want = dec02.drop_modes(ref.alpha_N_M(), dec02.deleted_modes(spec))
     scale = max(1.0, float(np.max(np.abs(want[1]))), float(np.max(np.abs(want[2]))))
 
     def measure(cut):
-        st = dec02.run_spec(sf, spec, backend, hbar=hbar, cutoff=cut)
+        st = dec02.run_spec(sf, spec, backend, hbar=hbar, cutoff=cut, op_cache=({} if rp.get("shared") else None))
         mom = dec02.state_moments(sf, st, backend, hbar)
         return sim.moment_dist(mom, want), max(1 - mom[3], 0.0)
     try:
@@ -791,6 +791,221 @@ def oracle_matrix_ops(ctx, sf):
         matrix_case(ctx, sf, rp)
 
 
+
+# ------------------------------------------------------------------ sharing, history, holes, primitives (lessons 1-3, 5)
+
+def snapshot_op(op):
+    """deep, comparable snapshot of an operation's observable fields"""
+    ps = []
+    for x in op.p:
+        try:
+            ps.append(str(np.round(np.asarray(x, dtype=complex), 12).tolist()))
+        except Exception:  # noqa: BLE001
+            ps.append(str(x))
+    return json.dumps([type(op).__name__, ps, bool(getattr(op, "dagger", False)),
+                       [str(getattr(op, a, None)) for a in ("mesh", "drop_identity", "vacuum", "decomp", "tol", "identity")]])
+
+
+def rand_decomposable(rng, rs, k_max=4):
+    """(spec-op without regs, number of modes) of a random decomposable operation, scalar or matrix"""
+    if rng.random() < 0.55:
+        cls = rng.choice(SCALAR1 + SCALAR2)
+        return dict(cls=cls, pars=scalar_pars(rng, cls, small=False), dagger=rng.random() < 0.6), nmodes(cls)
+    op = rand_matrix_op(rng, rs, k_max)
+    k = len(op.pop("regs"))
+    if op["cls"] == "Gaussian":
+        op["kw"]["decomp"] = True
+    return op, k
+
+
+def history_case(ctx, sf, op, k, regsA, regsB, big, rp):
+    """decompose called twice on ONE object (and once on other targets) = decomposition of a fresh equal object;
+    the object itself (parameters, flags) is left untouched"""
+    spec0 = dict(n=big, ops=[])
+    prog = dec02.build_prog(spec0)
+    name = op["cls"] + (".H" if op.get("dagger") else "")
+    try:
+        o = dec02.build_prog(dict(n=big, ops=[dict(op, regs=regsA)])).circuit[0].op
+        before = snapshot_op(o)
+        first = [content(c) for c in o.decompose([prog.register[i] for i in regsA])]
+        other = [content(c) for c in o.decompose([prog.register[i] for i in regsB])]
+        second = [content(c) for c in o.decompose([prog.register[i] for i in regsA])]
+        after = snapshot_op(o)
+        fresh = dec02.build_prog(dict(n=big, ops=[dict(op, regs=regsA)])).circuit[0].op
+        want = [content(c) for c in fresh.decompose([prog.register[i] for i in regsA])]
+        freshB = dec02.build_prog(dict(n=big, ops=[dict(op, regs=regsB)])).circuit[0].op
+        wantB = [content(c) for c in freshB.decompose([prog.register[i] for i in regsB])]
+    except ValueError:
+        ctx.tally("history:factorisation-rejected-input")
+        return
+    except Exception as e:  # noqa: BLE001
+        ctx.fail(f"raises:history:{name}:{type(e).__name__}", f"{name}.decompose raised {type(e).__name__}: {e}", rp)
+        return
+    ctx.oracle_cases += 1
+    if before != after:
+        ctx.fail(f"history:{op['cls']}:decompose-modifies-the-operation", f"{name}.decompose changed the operation object", rp)
+    elif first != want or second != want:
+        which = "first" if first != want else "second"
+        ctx.fail(f"history:{op['cls']}:repeated-decompose-differs",
+                 f"{name} on {regsA}: the {which} decompose() of one object differs from the decomposition of a fresh equal object", rp)
+    elif other != wantB:
+        ctx.fail(f"history:{op['cls']}:decompose-depends-on-earlier-call",
+                 f"{name}: decompose on {regsB} after a call on {regsA} differs from a fresh object's", rp)
+
+
+def driver_history_case(ctx, sf, spec, cname, rp):
+    """Compiler.decompose twice on ONE circuit with shared Operation instances: same output, inputs untouched"""
+    from strawberryfields.compilers import compiler_db
+    try:
+        prog = dec02.build_prog(spec, op_cache={})
+        circuit = list(prog.circuit)
+        before = [snapshot_op(c.op) for c in circuit]
+        comp = compiler_db[cname]()
+        out1 = [content(c) for c in comp.decompose(circuit)]
+        out2 = [content(c) for c in comp.decompose(circuit)]
+        after = [snapshot_op(c.op) for c in circuit]
+        want = [content(c) for c in compiler_db[cname]().decompose(list(dec02.build_prog(spec).circuit))]
+    except ValueError:
+        ctx.tally("history:factorisation-rejected-input")
+        return
+    except Exception as e:  # noqa: BLE001
+        if type(e).__name__ in ("CircuitError", "NotImplementedError"):
+            ctx.tally("history:driver-rejects")
+            return
+        ctx.fail(f"raises:driver-history:{type(e).__name__}", f"Compiler.decompose raised {type(e).__name__}: {e}", rp)
+        return
+    ctx.oracle_cases += 1
+    if before != after:
+        ctx.fail("history:driver:modifies-input-operations", f"{cname}: Compiler.decompose changed the operations of its input", rp)
+    elif out1 != want or out2 != want:
+        ctx.fail("history:driver:shared-or-repeated-differs",
+                 f"{cname}: decomposing a circuit with shared operation objects ({'first' if out1 != want else 'second'} call) differs "
+                 f"from decomposing the same circuit built from fresh objects", rp)
+
+
+def oracle_history(ctx, sf):
+    rng, rs = ctx.rng, ctx.nprng(6)
+    for it in range(ctx.n(70, 1200)):
+        op, k = rand_decomposable(rng, rs)
+        big = 13
+        regsA = rng.sample(range(big), k)
+        regsB = sorted(rng.sample(range(big), k), reverse=True)
+        rp = dict(kind="history", op=op, k=k, regsA=regsA, regsB=regsB, big=big)
+        ctx.count(f"history:{op['cls']}", dict(o=str(op)[:300], a=regsA, b=regsB), True,
+                  sample=dict(cls=op["cls"], dagger=op.get("dagger"), targets=regsA, second_targets=regsB))
+        history_case(ctx, sf, op, k, regsA, regsB, big, rp)
+    pool = SCALAR1 + SCALAR2
+    for it in range(ctx.n(45, 600)):
+        cname = COMPILERS[it % 3]
+        n = 12
+        base = []
+        for _ in range(rng.randint(1, 3)):
+            cls = rng.choice(pool if cname != "bosonic" else [c for c in pool if c != "sMZgate"])
+            base.append(dict(cls=cls, pars=scalar_pars(rng, cls), dagger=rng.random() < 0.6))
+        if cname != "bosonic" and rng.random() < 0.4:
+            mop = rand_matrix_op(rng, rs, 4)
+            mop.pop("regs")
+            base.append(mop)
+        ops_ = []
+        for _ in range(rng.randint(3, 7)):      # every operation object is used several times, on different targets
+            b = rng.choice(base)
+            k = nmodes(b["cls"]) if b["cls"] not in dec02.MATRIX_CLASSES else _matrix_modes(b)
+            ops_.append(dict(b, regs=rng.sample(range(n), k)))
+        spec = dict(n=n, ops=ops_)
+        rp = dict(kind="driver-history", spec=spec, compiler=cname)
+        ctx.count(f"history:driver:{cname}", dict(s=str(spec)[:400]), True)
+        driver_history_case(ctx, sf, spec, cname, rp)
+
+
+def _matrix_modes(op):
+    M = np.asarray(dec02.dec(op["pars"][0]))
+    k = M.shape[0]
+    if op["cls"] in ("GaussianTransform", "Gaussian"):
+        return k // 2
+    if op["cls"] == "BipartiteGraphEmbed" and op.get("kw", {}).get("edges"):
+        return 2 * k
+    return k
+
+
+PRIMS = ["Dgate", "Rgate", "Sgate", "BSgate"]
+
+
+def oracle_holes_sharing(ctx, sf):
+    """shared Operation instances applied several times; registers with holes; descending and multi-digit mode indices;
+    natively applied primitives with the inverse flag (Gate.apply) — all against the independent reference"""
+    rng = ctx.rng
+    for it in range(ctx.n(60, 900)):
+        backend = ("gaussian", "bosonic", "gaussian", "fock")[it % 4]
+        fock = backend == "fock"
+        n = 3 if fock else rng.choice([5, 12])
+        classes = SCALAR1 + SCALAR2 + PRIMS
+        if backend == "bosonic":
+            classes = [c for c in classes if c != "sMZgate"]
+        pre = prefix_ops(rng, min(n, 4), fock=fock)
+        if n > 4:       # move the correlated prefix to scattered (multi-digit) modes
+            where = rng.sample(range(n), 4)
+            pre = [dict(o, regs=[where[r] for r in o["regs"]]) for o in pre]
+        dead = []
+        if not fock and rng.random() < 0.7:
+            dead = [rng.randrange(n)]           # a mode deleted before the operations under test: register with a hole
+            pre.append(dict(cls="Del", regs=dead, pars=[]))
+        live = [m for m in range(n) if m not in dead]
+        base = []
+        for _ in range(2):
+            cls = rng.choice(classes)
+            base.append(dict(cls=cls, pars=scalar_pars(rng, cls, small=True), dagger=rng.random() < 0.6))
+        ops_ = []
+        for j in range(rng.randint(2, 4)):      # the same operation objects on several target tuples
+            b = base[j % 2]
+            regs = rng.sample(live, nmodes(b["cls"]))
+            if j == 1 and len(regs) == 2:
+                regs = sorted(regs, reverse=True)
+            ops_.append(dict(cls=b["cls"], pars=b["pars"], regs=regs, **({"dagger": True} if b["dagger"] else {})))
+        spec = dict(n=n, ops=pre + ops_)
+        rp = dict(kind="shared", spec=spec, backend=backend, hbar=2.0, shared=True)
+        names = "+".join(sorted({o["cls"] + (".H" if o.get("dagger") else "") for o in ops_}))
+        ctx.count(f"shared-holes:{backend}:n={n}:hole={bool(dead)}", dict(s=str(spec)[:600], b=backend), True,
+                  sample=dict(ops=ops_, deleted=dead, n=n, backend=backend))
+        try:
+            compare_to_reference(ctx, sf, spec, backend, 2.0, rp, f"shared-holes:{names}:{backend}",
+                                 f"{names} (shared objects, deleted modes {dead}) on {[o['regs'] for o in ops_]}")
+        except Exception as e:  # noqa: BLE001
+            ctx.fail(f"raises:shared-holes:{backend}:{type(e).__name__}", f"{names} on {backend} raised {type(e).__name__}: {e}", rp)
+
+
+def oracle_tolerance(ctx, sf):
+    """the `tol` argument reaches the factorisation: a unitary off by ~1e-5 is accepted with tol=1e-3 by every mesh,
+    alone and nested in BipartiteGraphEmbed, and the emitted circuit is U to that accuracy"""
+    from strawberryfields import ops
+    rng, rs = ctx.rng, ctx.nprng(7)
+    for it in range(ctx.n(21, 210)):
+        mesh = MESHES[it % 7]
+        m = rng.randint(3, 5)
+        U = unitary(rs, m, "haar")
+        Un = U + 1e-5 * (rs.standard_normal((m, m)) + 1j * rs.standard_normal((m, m)))
+        prog = sf.Program(m)
+        rp = dict(kind="tolerance", U=dec02.enc(Un), mesh=mesh)
+        ctx.count(f"tolerance:{mesh}", dict(m=mesh, it=it), True)
+        tolerance_case(ctx, sf, Un, mesh, rp)
+
+
+def tolerance_case(ctx, sf, Un, mesh, rp):
+    from strawberryfields import ops
+    m = Un.shape[0]
+    prog = sf.Program(m)
+    try:
+        cmds = ops.Interferometer(Un, mesh=mesh, tol=1e-3).decompose(list(prog.register))
+    except Exception as e:  # noqa: BLE001
+        ctx.fail(f"tolerance:{mesh}:tol-not-honoured", f"Interferometer(U, mesh={mesh}, tol=1e-3) with |UU^+ - 1| ~ 1e-5 raised "
+                                                       f"{type(e).__name__}: {e}", rp)
+        return
+    ctx.oracle_cases += 1
+    W = dec02.circuit_unitary(cmds, m)
+    if np.max(np.abs(W - Un)) > 2e-3:
+        ctx.fail(f"tolerance:{mesh}:circuit-is-not-U", f"mesh {mesh}: circuit differs from the (almost unitary) input by "
+                                                      f"{np.max(np.abs(W - Un)):.3g}", rp)
+
+
 # ================================================================== entry points
 
 def run_corpus(ctx, sf):
@@ -813,6 +1028,9 @@ def run(ctx, sf):
     oracle_interferometer(ctx, sf)
     oracle_gaussian_prep(ctx, sf)
     oracle_matrix_ops(ctx, sf)
+    oracle_history(ctx, sf)
+    oracle_holes_sharing(ctx, sf)
+    oracle_tolerance(ctx, sf)
     sf.hbar = 2.0
 
 
@@ -838,6 +1056,14 @@ def replay_one(ctx, sf, rp):
         interferometer_case(ctx, sf, np.asarray(dec02.dec(rp["U"])), rp["mesh"], rp["drop"], rp["reg"], rp["big"], rp)
     elif kind == "gaussian-prep":
         gaussian_case(ctx, sf, np.asarray(dec02.dec(rp["V2"])), rp["r"], rp["reg"], rp["n"], rp["hbar"], rp["backend"], rp)
+    elif kind == "history":
+        history_case(ctx, sf, rp["op"], rp["k"], rp["regsA"], rp["regsB"], rp["big"], rp)
+    elif kind == "driver-history":
+        driver_history_case(ctx, sf, rp["spec"], rp["compiler"], rp)
+    elif kind == "shared":
+        compare_to_reference(ctx, sf, rp["spec"], rp["backend"], rp["hbar"], rp, "shared-holes:replay", "replay")
+    elif kind == "tolerance":
+        tolerance_case(ctx, sf, np.asarray(dec02.dec(rp["U"])), rp["mesh"], rp)
     elif kind == "matrix":
         if "mkind" in rp:
             matrix_case(ctx, sf, rp)
